@@ -2878,8 +2878,20 @@ impl<'a> Visitor<'a, '_, Error> for JSONValidator<'a> {
       }
       Value::String(s) => {
         if is_ident_uri_data_type(self.state.cddl, ident) {
-          if let Err(e) = uriparse::URI::try_from(&**s) {
-            self.add_error(format!("expected URI data type, decoding error: {}", e));
+          // `URI::try_from` unwraps an error conversion that fails for some
+          // inputs (e.g. "2020-01-01T00:00:00Z"); going through `URIReference`
+          // reports the same inputs as errors instead of panicking
+          match uriparse::URIReference::try_from(&**s) {
+            Ok(reference) if reference.is_relative_reference() => {
+              self.add_error(format!(
+                "expected URI data type, decoding error: {}",
+                uriparse::URIError::NotURI
+              ));
+            }
+            Ok(_) => (),
+            Err(e) => {
+              self.add_error(format!("expected URI data type, decoding error: {}", e));
+            }
           }
         } else if is_ident_b64url_data_type(self.state.cddl, ident) {
           if let Err(e) = base64_url::decode(s) {
